@@ -1173,7 +1173,10 @@ class _Fold(ast.NodeTransformer):
         return node
 
 
-def default_fresh_params(fn, ref) -> Dict[str, ast.AST]:
+PACKAGE_KEYWORD_USE: Dict[str, set] = {}
+
+
+def default_fresh_params(fn, ref, qn: str = "") -> Dict[str, ast.AST]:
     """A parameter that the reference form of the function does not have and that has a constant default is a new option: for every call written against the
     reference tree it has its default value.  Its reads are replaced by that value (followed by constant folding) and it is taken off the signature, so the
     function is compared as the callers of the reference tree see it.  Returns {name: default}."""
@@ -1194,6 +1197,11 @@ def default_fresh_params(fn, ref) -> Dict[str, ast.AST]:
         return {}
     stored = {x.id for x in ast.walk(fn) if isinstance(x, ast.Name) and isinstance(x.ctx, (ast.Store, ast.Del))}
     fresh = {p: d for p, d in fresh.items() if p not in stored}
+    # a caller somewhere in the package that already passes the new keyword to a function of this name uses the new behaviour: then it is not defaulted away
+    callee_names = {fn.name}
+    if fn.name == "__init__" and "." in qn:
+        callee_names |= {qn.split(".")[-2], "cls", "__class__"}
+    fresh = {p: d for p, d in fresh.items() if not (PACKAGE_KEYWORD_USE.get(p, set()) & callee_names)}
     if not fresh:
         return {}
 
@@ -1465,7 +1473,7 @@ def normalize_module(tree: ast.Module, modname: str, table: Optional[dict] = Non
         if ref.get("digest") == digest(fn):
             continue        # unchanged since the reference tree: already in the rules' vocabulary
         todo_second.append((qn, fn, ref))
-        fp = default_fresh_params(fn, ref)
+        fp = default_fresh_params(fn, ref, qn)
         if fp:
             stats.setdefault("defaulted", {})[qn] = sorted(fp)
             for k_, d_ in fp.items():
